@@ -57,6 +57,19 @@ Lines(kd) ==
     [] kd = "ws"      -> <<"   ">>
     [] kd = "serr"    -> <<"n = = 1">>
     [] kd = "rerr"    -> <<"n = n + undefined_name">>
+    [] kd = "semi"    -> <<"n = n + 1; n = n + 1">>                    \* two statements on one line
+    [] kd = "semiecho" -> <<"n; n = n + 1">>                           \* an expression statement and an assignment on one line
+    [] kd = "indented" -> <<"  n = n + 1">>                            \* indentation at the primary prompt: an error, nothing runs
+    [] kd = "trail"   -> <<"n = n + 1  # c">>                          \* a trailing comment
+    [] kd = "trailws" -> <<"n = n + 1   ">>                            \* trailing white space
+    [] kd = "pass"    -> <<"pass">>
+    [] kd = "oneline" -> <<"if True: n = n + 1", "">>                  \* a compound statement on one line: complete at once
+    [] kd = "tryexc"  -> <<"try:", "    n = n + undefined_name", "except NameError:", "    n = n + 1", "">>
+    [] kd = "tryfin"  -> <<"try:", "    n = n + 1", "finally:", "    n = n + 1", "">>
+    [] kd = "elif"    -> <<"if False:", "    n = n + 5", "elif True:", "    n = n + 1", "else:", "    n = n + 7", "">>
+    [] kd = "tabblk"  -> <<"if True:", "\tn = n + 1", "\tn = n + 1", "">>   \* a block indented with tabs
+    [] kd = "while"   -> <<"while False:", "    n = n + 5", "else:", "    n = n + 1", "">>
+    [] kd = "mlsh"    -> <<"'''a", "# c", "b'''", "">>                     \* a line inside a string that looks like a comment
     [] kd = "cinc"    -> <<"if True:", "    n = n + 1", "">>
     [] kd = "nest"    -> <<"if True:", "    if True:", "        n = n + 1", "    n = n + 1", "">>
     [] kd = "loop"    -> <<"for i in range(2):", "    n = n + 1", "">>
@@ -75,9 +88,10 @@ Lines(kd) ==
     [] kd = "mlsw"    -> <<"'''a", " ", "b'''", "">>                     \* a whitespace-only line inside a string
     [] kd = "cstr"    -> <<"if True:", "    '''x", "", "    y'''", "">>    \* a string with an empty line, in a block
 
-OneLine   == {"init", "inc", "echo", "none", "under", "call", "comment", "empty", "ws", "serr", "rerr"}
-Compound  == {"cinc", "nest", "loop", "else", "cmt", "cecho", "def", "rerrc", "cstr"}   \* complete only with the (last) blank line
-Continued == {"ml", "mlc", "mls", "bs", "mle", "mlse", "mlsw"}                           \* complete at the closing line
+OneLine   == {"init", "inc", "echo", "none", "under", "call", "comment", "empty", "ws", "serr", "rerr",
+              "semi", "semiecho", "indented", "trail", "trailws", "pass"}
+Compound  == {"cinc", "nest", "loop", "else", "cmt", "cecho", "def", "rerrc", "cstr", "tryexc", "tryfin", "elif", "tabblk", "while"}   \* complete only with the (last) blank line
+Continued == {"ml", "mlc", "mls", "bs", "mle", "mlse", "mlsw", "oneline", "mlsh"}                           \* complete at the closing line
 FixedKinds == OneLine \cup Compound \cup Continued \cup {"serrc"}
 AllKinds  == FixedKinds \cup BlockKinds
 Alphabet  == FixedKinds \ {"init"}     \* the items a session is made of after its initial  n = 0
@@ -90,7 +104,7 @@ C(kd) == IF kd \in OneLine THEN 1 ELSE IF kd \in Compound \cup BlockKinds THEN M
 NoValue == [def |-> FALSE, val |-> ""]
 IntVal(x) == [def |-> TRUE, val |-> ToString(x)]
 StrVal(kd) == [def |-> TRUE, val |-> CASE kd = "mlse" -> "'a\\n\\nb'" [] kd = "mlsw" -> "'a\\n \\nb'"
-                                      [] kd = "cstr" -> "'x\\n\\n    y'" [] OTHER -> "'a\\nb'"]
+                                      [] kd = "cstr" -> "'x\\n\\n    y'" [] kd = "mlsh" -> "'a\\n# c\\nb'" [] OTHER -> "'a\\nb'"]
 Ns0 == [n |-> -1, f |-> FALSE, last |-> NoValue]
 (* result of executing item kd in namespace s: the new namespace, the echoed text, whether an error is reported *)
 Effect(kd, s) ==
@@ -98,15 +112,16 @@ Effect(kd, s) ==
       plus(d, e) == [ns |-> [s EXCEPT !.n = @ + d], out |-> "", err |-> e] IN
   CASE kd \in BlockKinds -> plus(BIncs(BTable[kd]), FALSE)
     [] kd = "init" -> [ns |-> [s EXCEPT !.n = 0], out |-> "", err |-> FALSE]
-    [] kd \in {"inc", "cinc", "else", "cmt", "ml", "mlc", "mle", "bs"} -> plus(1, FALSE)
-    [] kd \in {"nest", "loop"} -> plus(2, FALSE)
+    [] kd \in {"inc", "cinc", "else", "cmt", "ml", "mlc", "mle", "bs", "trail", "trailws", "oneline", "tryexc", "elif", "while"} -> plus(1, FALSE)
+    [] kd \in {"nest", "loop", "semi", "tryfin", "tabblk"} -> plus(2, FALSE)
+    [] kd = "semiecho" -> [ns |-> [s EXCEPT !.n = @ + 1, !.last = IntVal(s.n)], out |-> ToString(s.n), err |-> FALSE]
     [] kd = "rerrc" -> plus(1, TRUE)                       \* the effects before the failing line stay
     [] kd \in {"echo", "cecho"} -> [ns |-> [s EXCEPT !.last = IntVal(s.n)], out |-> ToString(s.n), err |-> FALSE]
     [] kd = "call" -> IF s.f THEN [ns |-> [s EXCEPT !.last = IntVal(s.n)], out |-> ToString(s.n), err |-> FALSE] ELSE same("", TRUE)
     [] kd = "under" -> IF s.last.def THEN same(s.last.val, FALSE) ELSE same("", TRUE)
-    [] kd \in {"mls", "mlse", "mlsw", "cstr"} -> [ns |-> [s EXCEPT !.last = StrVal(kd)], out |-> StrVal(kd).val, err |-> FALSE]
+    [] kd \in {"mls", "mlse", "mlsw", "cstr", "mlsh"} -> [ns |-> [s EXCEPT !.last = StrVal(kd)], out |-> StrVal(kd).val, err |-> FALSE]
     [] kd = "def" -> [ns |-> [s EXCEPT !.f = TRUE], out |-> "", err |-> FALSE]
-    [] kd \in {"serr", "serrc", "rerr"} -> same("", TRUE)
+    [] kd \in {"serr", "serrc", "rerr", "indented"} -> same("", TRUE)
     [] OTHER -> same("", FALSE)                            \* none (a None value is neither echoed nor bound to _), comment, empty, ws
 
 (* reference: the same statements executed one by one *)
@@ -171,7 +186,7 @@ PromptClause == PromptOK
 (* an item that cannot run yet has not run; one whose last line was fed runs before anything else is fed *)
 NotEarly == hist # <<>> /\ k < C(Cur) => ~ex
 EchoClause == (out # "" => ex /\ out = Effect(Cur, RefNs(SubSeq(hist, 1, Len(hist) - 1))).out)
-TypeOK == k \in 0..6 /\ prompt \in {PS1, PS2} /\ ns.n \in -1..(6 * (MaxItems + 1))
+TypeOK == k \in 0..7 /\ prompt \in {PS1, PS2} /\ ns.n \in -1..(6 * (MaxItems + 1))
 
 Leaf == Len(hist) = MaxItems + 1 /\ k = M(Cur) /\ ex
 =============================================================================
